@@ -18,7 +18,7 @@ import (
 
 var c17Profile = &kvh.GenProfile{
 	Weights: map[string]int{
-		"put": 40, "del": 14, "batch": 18, "merge": 6, "reopen": 10, "get": 2, "sync": 1, "stat": 3,
+		"put": 40, "del": 14, "batch": 18, "merge": 6, "reopen": 10, "get": 2, "sync": 1, "stat": 3, "tear": 3,
 	},
 	MaxBatchOps: 10,
 	Big:         true,
@@ -96,7 +96,7 @@ func c17Check(r *kvh.Runner, op *kvh.Op, s *c17State) *kvh.Fail {
 			s.mergeNon = scans[len(scans)-1].ID
 		}
 	}
-	if op.K == "reopen" && s.mergeSeen {
+	if (op.K == "reopen" || op.K == "tear") && s.mergeSeen {
 		if _, err := os.Stat(r.Dir + "-merge"); err != nil {
 			for _, fs := range scans {
 				if fs.ID < s.mergeNon {
